@@ -312,10 +312,11 @@ func (x *vc) script(o *obligation) string {
 		b.WriteString(a)
 		b.WriteByte('\n')
 	}
-	if strings.Contains(b.String(), "(streq ") {
+	if strings.Contains(b.String(), "(streq ") || strings.Contains(o.goal, "(streq ") || strings.Contains(o.guard, "(streq ") {
 		b.WriteString(streqAxioms)
 	}
-	if body := b.String(); strings.Contains(body, "rv_") || strings.Contains(body, "kind_of_type") {
+	if body := b.String() + o.goal + o.guard; strings.Contains(body, "rv_") || strings.Contains(body, "kind_of_type") {
+		body = b.String()
 		// the reflect model's declarations must precede their uses: rebuild with them after the prelude
 		rest := body[len(prelude):]
 		b.Reset()
